@@ -71,6 +71,82 @@ pub fn draw_hash(seed: u64, kind: u8, id: usize, pass: u64, weights: &[f64]) -> 
 }
 
 // ---------------------------------------------------------------------------------------------
+// internal infoset indices are not part of the crate's contract: canonical numbering
+
+/// Internal index -> canonical index (the order of first appearance in a pre-order walk of the
+/// compact tree, which is how the model numbers infosets), for chance infosets and the two
+/// players' infosets, read off `Game::verif_dump`.  Draw keys, draw logs, mutex labels and compiled
+/// tables are all compared in canonical indices, so a crate that numbers its infosets differently
+/// is compared fairly.
+#[derive(Clone, Debug, Default)]
+pub struct IndexMaps {
+    pub to_canon: [Vec<usize>; 3],
+}
+
+impl IndexMaps {
+    pub fn of_dump(dump: &str) -> IndexMaps {
+        let toks: Vec<&str> = dump.split_whitespace().collect();
+        let mut maps: [Vec<Option<usize>>; 3] = [Vec::new(), Vec::new(), Vec::new()];
+        // table sizes: "CH n ..." "P1 n ..." "P2 n ..."
+        let find = |tag: &str| toks.iter().position(|t| *t == tag).and_then(|i| toks.get(i + 1)).and_then(|x| x.parse::<usize>().ok()).unwrap_or(0);
+        maps[0] = vec![None; find("CH")];
+        maps[1] = vec![None; find("P1")];
+        maps[2] = vec![None; find("P2")];
+        let mut next = [0usize; 3];
+        if let Some(start) = toks.iter().position(|t| *t == "N") {
+            let mut i = start + 1;
+            while i < toks.len() {
+                match toks[i] {
+                    "T" => i += 2,
+                    "C" => {
+                        if let Ok(idx) = toks[i + 1].parse::<usize>() {
+                            if idx < maps[0].len() && maps[0][idx].is_none() {
+                                maps[0][idx] = Some(next[0]);
+                                next[0] += 1;
+                            }
+                        }
+                        i += 3;
+                    }
+                    "P" => {
+                        let k = if toks[i + 1] == "1" { 1 } else { 2 };
+                        if let Ok(idx) = toks[i + 2].parse::<usize>() {
+                            if idx < maps[k].len() && maps[k][idx].is_none() {
+                                maps[k][idx] = Some(next[k]);
+                                next[k] += 1;
+                            }
+                        }
+                        i += 4;
+                    }
+                    _ => i += 1,
+                }
+            }
+        }
+        let mut out = IndexMaps::default();
+        for k in 0..3 {
+            let mut n = next[k];
+            out.to_canon[k] = maps[k]
+                .iter()
+                .map(|m| match m {
+                    Some(c) => *c,
+                    None => {
+                        n += 1;
+                        n - 1
+                    }
+                })
+                .collect();
+        }
+        out
+    }
+    /// kind as in the draw hook: 0 chance, 1 player one, 2 player two
+    pub fn canon(&self, kind: u8, id: usize) -> usize {
+        self.to_canon.get(kind as usize).and_then(|m| m.get(id)).cloned().unwrap_or(id)
+    }
+    pub fn is_identity(&self) -> bool {
+        self.to_canon.iter().all(|m| m.iter().enumerate().all(|(i, c)| i == *c))
+    }
+}
+
+// ---------------------------------------------------------------------------------------------
 // raw trees
 
 #[derive(Clone, Debug, PartialEq)]
